@@ -24,7 +24,9 @@ type Size uint32
 
 // LessThan checks if v is before w, i.e., v < w.
 func (v Value) LessThan(w Value) bool {
-	return int32(v-w) < 0
+	// Values exactly 2^31 apart are not ordered (RFC 1982): without the second
+	// test both v.LessThan(w) and w.LessThan(v) would be true.
+	return int32(v-w) < 0 && v-w != 1<<31
 }
 
 // LessThanEq returns true if v==w or v is before i.e., v < w.
